@@ -261,7 +261,33 @@ class FP:
             else:
                 self.ctx.add_side(z3.And(kr - 1 < x, x <= kr), None)
             return kr
-        return self.uf(name)(x)
+        return self.uf_app(name, (x,))
+
+    def uf_app(self, name, args):
+        """Uninterpreted function application by solver-checked congruence: an application whose arguments
+        are provably equal (under the path condition) to those of an earlier application of the same function
+        gets the same result variable; otherwise a fresh one.  No UF reaches the solver, queries stay pure NRA."""
+        st = self.ctx.cur
+        tab = st.user.get("uf")
+        tab = list(tab) if tab else []
+        args = tuple(z3.simplify(a) for a in args)
+        for fn, oargs, res in tab:
+            if fn != name or len(oargs) != len(args):
+                continue
+            if all(a.eq(b) for a, b in zip(args, oargs)):
+                return res
+        for fn, oargs, res in tab:
+            if fn != name or len(oargs) != len(args):
+                continue
+            diff = z3.Or(*[a != b for a, b in zip(args, oargs)])
+            r, _ = self.ctx.check(st.pc + [diff])
+            if r == "unsat":
+                return res
+        y = self.ctx.fresh_real(name)
+        tab.append((name, args, y))
+        st.user["uf"] = tab
+        self.ctx.res.assumptions.add("%s() is uninterpreted: only f(x)=f(y) for provably equal arguments is used" % name)
+        return y
 
     def pow(self, a, b):
         if self.conc(a) and self.conc(b):
@@ -301,8 +327,8 @@ class FP:
                 self.ctx.add_side(y * y * y == realz(a), None)
                 return y
         if self.conc(a) and Fraction(a) == 10:
-            return self.uf("exp10")(realz(b))
-        return self.uf("pow", 2)(realz(a), realz(b))
+            return self.uf_app("exp10", (realz(b),))
+        return self.uf_app("pow", (realz(a), realz(b)))
 
     def fptosi(self, x, bits):
         if self.conc(x):
